@@ -192,6 +192,9 @@ fn eval_union_expr(
 
     let mut set = HashSet::new();
     nodes.retain(|v| set.insert(v.order()));
+    // a node-set is in document order, whatever the order of the operands.
+    nodes.sort_by_cached_key(|v| v.order());
+
     Ok(nodes.as_value())
 }
 
